@@ -49,15 +49,69 @@ fn pushw(v: &[i16]) -> Vec<u8> {
 
 /// Stack preludes (top of stack is the *last* value pushed). Point count of glyph 1 is 3 (+4 phantom = 7),
 /// cvt length is 4: the small mixed prelude puts indices on, just inside and just outside those bounds.
-pub fn preludes() -> Vec<(&'static str, Vec<u8>)> {
-    vec![
-        ("empty stack", vec![]),
-        ("8 x 0", pushb(&[0; 8])),
-        ("8 x 1", pushb(&[1; 8])),
-        ("8 x -1", pushw(&[-1; 8])),
-        ("7,4,3,2,64,0,1,2 (point_count, cvt_len, indices)", pushb(&[7, 4, 3, 2, 64, 0, 1, 2])),
-        ("0x7FFF,-0x8000,-1,0,1,8,0x7FFF,-0x8000", pushw(&[0x7FFF, -0x8000, -1, 0, 1, 8, 0x7FFF, -0x8000])),
-    ]
+/// Indices `0..N_BASE_PRELUDES` are the general preludes; the rest are the ppem-coupled delta preludes
+/// (`delta_preludes`). The order is fixed: a case names its prelude by index.
+pub fn preludes() -> Vec<(String, Vec<u8>)> {
+    let mut v: Vec<(String, Vec<u8>)> = vec![
+        ("empty stack".into(), vec![]),
+        ("8 x 0".into(), pushb(&[0; 8])),
+        ("8 x 1".into(), pushb(&[1; 8])),
+        ("8 x -1".into(), pushw(&[-1; 8])),
+        ("7,4,3,2,64,0,1,2 (point_count, cvt_len, indices)".into(), pushb(&[7, 4, 3, 2, 64, 0, 1, 2])),
+        ("0x7FFF,-0x8000,-1,0,1,8,0x7FFF,-0x8000".into(), pushw(&[0x7FFF, -0x8000, -1, 0, 1, 8, 0x7FFF, -0x8000])),
+    ];
+    debug_assert_eq!(v.len(), N_BASE_PRELUDES);
+    v.extend(delta_preludes());
+    v
+}
+
+pub const N_BASE_PRELUDES: usize = 6;
+
+/// Top-of-stack operands of the delta preludes (consumed by a preceding one-pop opcode such as SDS / SDB).
+pub const DELTA_TOPS: [i16; 5] = [-1, 0, 6, 7, 0x7FFF];
+
+/// Exception-pair configurations of the delta preludes: (pairs as (magnitude nibble m, index), count n).
+/// Together they cover m in {0, 7, 8, 15}, index in {0, 1 (valid point and cvt index), 200 (out of range)}
+/// and n in {1, 2}.
+pub const DELTA_CONFIGS: [(&[(u8, i16)], i16); 3] = [
+    (&[(15, 1), (0, 0)], 2),
+    (&[(7, 200), (8, 1)], 2),
+    (&[(8, 0)], 1),
+];
+
+/// **ppem-coupled delta preludes.** A DELTAP/DELTAC exception only fires when the high nibble of its
+/// argument selects exactly the instance's ppem (`ppem == delta_base(9) + nibble` for DELTAx1). For every
+/// hinting size of `SIZES` whose integer ppem lies in 9..=24 and every (configuration, top) of
+/// `DELTA_CONFIGS x DELTA_TOPS` the prelude leaves on the stack, bottom to top:
+///     arg_1, index_1, [arg_2, index_2,] n, top          with arg_i = ((ppem - 9) << 4) | m_i
+/// so that `[X, DELTA*1]` executes a *firing* exception after X consumed `top` (X = SDS/SDB/… one-pop
+/// opcodes; any other X simply explores a different behaviour), and `[DELTA*1, Y]`… see the count `top`.
+pub fn delta_preludes() -> Vec<(String, Vec<u8>)> {
+    let mut out = vec![];
+    for size in SIZES {
+        let ppem = size as i32; // the interpreter's integer ppem (HintingInstance: `ppem as i32`)
+        if !(9..=24).contains(&ppem) {
+            continue;
+        }
+        for (pairs, n) in DELTA_CONFIGS {
+            for top in DELTA_TOPS {
+                let mut vals: Vec<i16> = vec![];
+                for (m, index) in pairs {
+                    vals.push((((ppem - 9) << 4) as i16) | *m as i16);
+                    vals.push(*index);
+                }
+                vals.push(n);
+                vals.push(top);
+                out.push((format!("delta@{ppem}ppem: (arg,index)x{} n={n} top={top}: {vals:?}", pairs.len()), pushw(&vals)));
+            }
+        }
+    }
+    out
+}
+
+/// Indices (into `preludes()`) of the ppem-coupled delta preludes.
+pub fn delta_prelude_indices() -> Vec<usize> {
+    (N_BASE_PRELUDES..N_BASE_PRELUDES + delta_preludes().len()).collect()
 }
 
 /// maxp limit settings: (name, [maxZones, maxTwilightPoints, maxStorage, maxFunctionDefs, maxInstructionDefs,
